@@ -229,31 +229,116 @@ func c06Exact(b []byte) []byte {
 	return c
 }
 
+// c06Nibbles is the nibble form of a key.
+func c06Nibbles(k []byte) []byte {
+	out := make([]byte, 0, 2*len(k))
+	for _, b := range k {
+		out = append(out, b>>4, b&0xf)
+	}
+	return out
+}
+
+// c06DeleteShape names the relation of the deleted key to the model contents.
+func c06DeleteShape(m ref.OMap, k []byte) string {
+	if _, ok := m[string(k)]; ok {
+		return "present-key"
+	}
+	for x := range m {
+		if len(x) > len(k) && bytes.HasPrefix(c06Nibbles([]byte(x)), c06Nibbles(k)) {
+			return "absent-key-prefixing-a-present-key"
+		}
+	}
+	return "absent-key"
+}
+
+// c06Norm makes an error / panic text usable inside a signature: first line, hashes and numbers
+// replaced by '#'.
+func c06Norm(msg string) string {
+	if i := strings.IndexByte(msg, '\n'); i >= 0 {
+		msg = msg[:i]
+	}
+	msg = strings.TrimPrefix(msg, "panic: ")
+	var b strings.Builder
+	run := false
+	for _, c := range msg {
+		if c >= '0' && c <= '9' {
+			if !run {
+				b.WriteByte('#')
+			}
+			run = true
+			continue
+		}
+		run = false
+		b.WriteRune(c)
+	}
+	out := b.String()
+	if len(out) > 90 {
+		out = out[:90]
+	}
+	return out
+}
+
 func c06Apply(s *c06State, o c06Op) string {
 	switch o.kind {
 	case "put":
 		k, v := c06Exact(o.k), c06Exact(o.v)
-		err := s.t.Put(k, v)
+		var err error
+		if p, msg := verifmc.Guard(func() { err = s.t.Put(k, v) }); p {
+			return c06Div("Put:panic:"+c06Norm(msg), "Put(%x,%s) on %s (version %d): %s", o.k, c06ValName(o.v), c06MapString(s.m), c06Ver(s.ver), msg)
+		}
 		if !bytes.Equal(k, o.k) {
 			// the engine wrote into the caller's key: the entry is then stored under other bytes
 			return c06Div("Put:overwrites-callers-key", "Put(%x,%s) on %s (version %d) changed the caller's key slice (len=cap=%d) to %x",
 				o.k, c06ValName(o.v), c06MapString(s.m), c06Ver(s.ver), len(o.k), k)
 		}
 		if err != nil {
-			return c06Div("Put:error", "Put(%x,%s) on %s returned error %v", o.k, c06ValName(o.v), c06MapString(s.m), err)
+			return c06Div("Put:error:"+c06Norm(err.Error()), "Put(%x,%s) on %s (version %d) returned error %v", o.k, c06ValName(o.v), c06MapString(s.m), c06Ver(s.ver), err)
 		}
 		s.m[string(o.k)] = append([]byte{}, o.v...)
 	case "delete":
 		k := c06Exact(o.k)
-		err := s.t.Delete(k)
+		shape := c06DeleteShape(s.m, o.k)
+		var err error
+		if p, msg := verifmc.Guard(func() { err = s.t.Delete(k) }); p {
+			return c06Div("Delete:"+shape+":panic:"+c06Norm(msg), "Delete(%x) on %s (version %d): %s", o.k, c06MapString(s.m), c06Ver(s.ver), msg)
+		}
 		if !bytes.Equal(k, o.k) {
 			return c06Div("Delete:overwrites-callers-key", "Delete(%x) on %s (version %d) changed the caller's key slice (len=cap=%d) to %x",
 				o.k, c06MapString(s.m), c06Ver(s.ver), len(o.k), k)
 		}
 		if err != nil {
-			return c06Div("Delete:error", "Delete(%x) on %s returned error %v", o.k, c06MapString(s.m), err)
+			return c06Div("Delete:"+shape+":error:"+c06Norm(err.Error()), "Delete(%x) on %s (version %d) returned error %v", o.k, c06MapString(s.m), c06Ver(s.ver), err)
 		}
 		delete(s.m, string(o.k))
+		if shape == "absent-key-prefixing-a-present-key" {
+			// Diagnostic read of the live object (Get does not mutate it): did deleting an absent
+			// key remove a present key that it prefixes?  If exactly that happened the mismatch is
+			// reported under its own signature and the model follows the real object; anything
+			// else is left to the root / fresh-instance oracle of the next check.
+			// A key counts as gone when the live Get returns nil or panics (a panic of this
+			// diagnostic read is not itself reported: Get on an instance with uncommitted changes is
+			// not an observation point of the statement; it is counted).  The next check validates
+			// the re-synchronised model against the root and a fresh instance.
+			var gone []string
+			for _, x := range s.m.Keys() {
+				if len(s.m[x]) == 0 {
+					continue
+				}
+				var got []byte
+				if p, _ := verifmc.Guard(func() { got = s.t.Get(c06Exact([]byte(x))) }); p {
+					s.r.Outcome("diagnostic-live-get-panicked(outside statement,counted)")
+					got = nil
+				}
+				if got == nil {
+					gone = append(gone, x)
+				}
+			}
+			if len(gone) == 1 && bytes.HasPrefix(c06Nibbles([]byte(gone[0])), c06Nibbles(o.k)) {
+				s.soft = append(s.soft, verifmc.Violation{Sig: "Delete:absent-key-removes-a-key-it-prefixes",
+					Desc: fmt.Sprintf("Delete(%x) on %s (version %d): key %x is absent, but afterwards Get(%x) on the same instance returns nil", o.k, c06MapString(s.m), c06Ver(s.ver), o.k, gone[0])})
+				delete(s.m, gone[0])
+			}
+		}
 	case "commit":
 		_, d := c06Commit(s, s.t, "Hash")
 		return d
@@ -456,8 +541,11 @@ func c06Keys(family string) (keys, probes [][]byte) {
 		return [][]byte{{}, {0x00}, {0x01}, {0x10}, {0x00, 0x00}, {0x00, 0x01}, {0x01, 0x00}, {0x10, 0x00}, {0x00, 0x00, 0x00}},
 			[][]byte{{0x02}, {0x11}, {0x23}, {0x00, 0x02}, {0x00, 0x00, 0x01}, {0x10, 0x00, 0x00}}
 	case "mid":
-		// fewer keys, explored deeper: a key, two extensions that share a nibble, a sibling
-		return [][]byte{{}, {0x01}, {0x01, 0x00}, {0x01, 0x01}, {0x10}},
+		// fewer keys, explored deeper: the empty key, a key, three extensions of it: two under the
+		// same child nibble (a branch below a branch) and one under another child nibble (so that
+		// the node of 01 can have two children)
+		// plus a key under another root nibble (a root branch without partial key)
+		return [][]byte{{}, {0x01}, {0x01, 0x00}, {0x01, 0x01}, {0x01, 0x10}, {0x10}},
 			[][]byte{{0x00}, {0x11}, {0x01, 0x02}, {0x01, 0x00, 0x00}}
 	case "long":
 		// partial keys of 62..66 and 318..322 nibbles: the multi-byte header length encoding
@@ -524,7 +612,8 @@ func c06Explore(r *verifmc.Report, family string, ver trie.TrieLayout, vals [][]
 			if d := c06Check(s, keys, probes); d != "" {
 				return d
 			}
-			r.Outcome(fmt.Sprintf("entries=%d root-persisted-before-check=%t db-records=%d", len(s.m), persistedRoot, c06Bucket(len(s.db.data))))
+			r.Outcome(fmt.Sprintf("entries=%d root-persisted-before-check=%t", len(s.m), persistedRoot))
+			r.Outcome(fmt.Sprintf("db-records=%d%s", c06Bucket(len(s.db.data)), map[bool]string{true: "+", false: ""}[len(s.db.data) > 4]))
 			return ""
 		},
 		Canon: c06Canon,
@@ -549,7 +638,7 @@ func c06Bucket(n int) int {
 func TestVerif_C06(t *testing.T) {
 	r := verifmc.NewReport("C06", "triedb", "model_checking")
 	defer r.Write()
-	r.Rule = "BFS over put/delete/commit/reopen histories on the real TrieDB (V0 and V1) over a map-backed database with real (buffered) batches; alphabets: short (9 colliding keys x values of 0,1,31,32,33 bytes), mid (5 keys x 1,32,33 bytes, one level deeper), long (15 keys with 62..66 / 318..322 nibble partial keys x 1,33 bytes); states deduplicated on the dump of the private node structure, deathRow, database and model; in every state Hash() (commit) is compared with the independent spec root, Hash() is repeated, and a fresh TrieDB opened at the root must Get the model value for every alphabet key and nil for absent keys and probes"
+	r.Rule = "BFS over put/delete/commit/reopen histories on the real TrieDB (V0 and V1) over a map-backed database with real (buffered) batches; alphabets: short (9 colliding keys x values of 0,1,31,32,33 bytes), mid (6 keys x 1,32,33 bytes, one level deeper), long (15 keys with 62..66 / 318..322 nibble partial keys x 1,33 bytes); states deduplicated on the dump of the private node structure, deathRow, database and model; in every state Hash() (commit) is compared with the independent spec root, Hash() is repeated, and a fresh TrieDB opened at the root must Get the model value for every alphabet key and nil for absent keys and probes"
 	r.Assumption("the database always serves the empty node under the hash of the empty node (as the package's NewMemoryDB(EmptyNode) helper does); an empty TrieDB over a database without it fails with 'incomplete database' and that precondition is not counted as a finding")
 	r.Assumption("database.Batch semantics: writes are buffered and applied in order by Flush, dropped by Close")
 	// sanity of the reference against constants that do not come from the code under test
